@@ -31,7 +31,7 @@ func init() { register(c19{}) }
 func (c19) Meta() core.Meta {
 	return core.Meta{
 		ID: "C19", Level: "fault_enumeration",
-		Rule:        "case i = f(seed,i): a list of 1..6 Maps from the C02 domain (decoded generated documents) or the C06 domain (JSON objects with non-null scalars, strings with braces, quotes, backslashes, trailing backslash) is written with XmlFile / XmlFileIndent / JsonFile / JsonFileIndent (random blank indent strings) and read back with NewMapsFrom{Xml,Json}File and the Raw forms: same count and order; XML: each equals NewMapXml of its own encoding, JSON: each equals the original; Raw contains each document's text. Gob->NewMapGob and Copy return deeply equal Maps. Fault enumeration on the written file (files <= 400 bytes): EVERY truncation point (the reader must return exactly the Maps whose documents are complete, with an error iff the cut falls inside a document) and a hostile single-byte substitution at EVERY offset (no panic, termination, the Maps that lie entirely before the damaged byte are returned intact). OS-level fault injection (strace -e inject=read:error=EIO:when=K on the data file, K sampled; a few per shard in quick, hundreds in thorough): error returned together with exactly the Maps completed before byte K. Missing file, directory and non-regular file give an error. Non-trivial: >=2 Maps or a damaged file; distinct by hash(file bytes, fault).",
+		Rule:        "case i = f(seed,i): a list of 1..6 Maps from the C02 domain (decoded generated documents) or the C06 domain (JSON objects with non-null scalars, strings with braces, quotes, backslashes, trailing backslash) is written with XmlFile / XmlFileIndent / JsonFile / JsonFileIndent (random blank indent strings) and read back with NewMapsFrom{Xml,Json}File and the Raw forms: same count and order; XML: each equals NewMapXml of its own encoding, JSON: each equals the original; Raw contains each document's text. Gob->NewMapGob and Copy return deeply equal Maps. Fault enumeration on the written file (files <= 400 bytes): EVERY truncation point (the reader must return exactly the Maps whose documents are complete, with an error iff the cut falls inside a document) and a hostile single-byte substitution at EVERY offset (no panic, termination, the Maps that lie entirely before the damaged byte are returned intact). A substituted byte after which the file is malformed (XML: rejected by the strict std tokenizer; JSON: a closing brace that closes nothing) must give an error. OS-level fault injection (strace -e inject=read:error=EIO:when=K on the data file, K sampled; a few per shard in quick, hundreds in thorough): error returned together with exactly the Maps completed before byte K. Missing file, directory and non-regular file give an error. Non-trivial: >=2 Maps or a damaged file; distinct by hash(file bytes, fault).",
 		Assumptions: []string{"gob does not transmit the difference between an empty and a nil list (encoding/gob semantics); they are compared as equal", "strace-based injection is skipped (and counted) if strace cannot attach in the sandbox"},
 		Anchors:     []string{"Maps.XmlFile", "Maps.XmlFileIndent", "Maps.JsonFile", "Maps.JsonFileIndent", "NewMapsFromXmlFile", "NewMapsFromXmlFileRaw", "NewMapsFromJsonFile", "NewMapsFromJsonFileRaw", "Map.Gob", "NewMapGob", "Map.Copy"},
 		Floors:      map[string]int64{"files-written": 300, "truncations": 20000, "substitutions": 20000, "truncation:inside-document": 20000, "truncation:between-documents": 500, "gob-roundtrips": 300, "bad-path-checks": 200},
